@@ -155,3 +155,14 @@ def run_task(task, kf):
 def extra_coverage(results, tier):
     return {"scenarios": {r["id"]: r.get("summary") for r in results},
             "shared_written_locations": sorted({loc for r in results for loc in (r.get("summary") or {}).get("locations", [])})}
+
+
+MANIFEST = {
+    "text": "Shared-state read/write events are extracted from the real byte-code of each thread's workload (sys.monitoring line/instruction events, namespaces by identity); "
+            "z3 enumerates every interleaving (bounded context switches) whose reads-from relation differs from the solo runs; each such schedule is forced on the real code "
+            "with real threads and line gates, and only a replay whose result differs from the solo result is a violation. unsat closes each scenario.",
+    "note": "Line granularity, tracked shared state only (module globals, celpy class attributes), 2-4 threads, <= 5 context switches. Lark internals, C-level caches and "
+            "free-running stress are outside; an unforceable schedule is inconclusive, never an alarm.",
+    "technique": "SMT (z3) encoding of thread interleavings over byte-code-level shared-state events; forced-schedule replay on the real code",
+    "design_ref": "DESIGN.md §3.2, §7 C16",
+}
